@@ -61,3 +61,4 @@ Definition b64_of_b32 (x : b32) : b64 :=
   | B754_infinity s => B754_infinity s
   | B754_nan => B754_nan
   | B754_finite s m e _ => binary_normalize 53 1024 _ _ mode_NE (if s then Zneg m else Zpos m) e s
+  end.
